@@ -94,7 +94,10 @@ func (c *DNSCryptClient) Encrypt(payload []byte) (packet []byte, nonce []byte, e
 		ClientPk:    c.Info.PublicKey,
 	}
 
-	packet, err = q.Encrypt(payload, c.Info.SharedKey)
+	// The library pads by appending to the slice it is given; hand it a
+	// private copy so that the caller's bytes (possibly shared between
+	// goroutines) are never written to.
+	packet, err = q.Encrypt(bytes.Clone(payload), c.Info.SharedKey)
 	if err != nil {
 		return nil, nil, err
 	}
